@@ -72,6 +72,11 @@ def queries(tier):
         for m in allm:
             qs.append(q("lookup_member%d_mask%x" % (look, m), "h_lookup_case", dict(sdefs(s), LOOK=look, MASK=m),
                         "archive of b.TXT and A.map: member %d looked up (Contains, GetIndex, OpenStream by name) with case mask %s%s" % (look, bin(m & 0x1F), " behind ./" if m >> 31 else "")))
+    # letters at the ends of the alphabet: 'Zz' / 'zY.x' under a few masks
+    sz = (2, NAMESETS[1], (1, 2, 0), (0, 1, 2), "")
+    for look, m in ((0, 0b0001), (0, 0b1010 | (1 << 31)), (1, 0b01), (1, 0b11 | (1 << 31))):
+        qs.append(q("lookup_z_member%d_mask%x" % (look, m), "h_lookup_case", dict(sdefs(sz), LOOK=look, MASK=m),
+                    "archive of Zz and zY.x: member %d looked up with case mask %s%s" % (look, bin(m & 0x1F), " behind ./" if m >> 31 else "")))
     s = (2, NAMESETS[0], (3, 6, 0), (0, 1, 2), "")
     qs.append(q("extract_all_" + sname(s), "h_extract_all", sdefs(s), "pack 2 files, ExtractAllFiles into the directory: every member's bytes land under its name"))
     # refusals
